@@ -24,6 +24,7 @@ correspondence step evaluates numerically against the source function.
 """
 import ast
 import math
+import os
 from fractions import Fraction
 
 try:
@@ -611,8 +612,11 @@ class Run:
 # --------------------------------------------------------------------------------------------------
 
 class Source:
-    def __init__(self, path):
+    def __init__(self, path, root=None):
         self.path = path
+        # name used in generated comments / messages: relative to the tree under test, so that the
+        # generated text does not depend on where the tree lives
+        self.rel = os.path.relpath(path, root) if root else path
         try:
             self.text = open(path).read()
         except OSError as e:
@@ -684,7 +688,7 @@ def translate(src, qual, cfg, inputs, outputs, bound=(), this="return"):
     outputs: [(defname, params, selector)] selector = 'return' | 'return.<tag>' | python variable name
     Returns a list of Def."""
     fd = src.find(qual)
-    run = Run(cfg, "%s:%s" % (src.path, qual))
+    run = Run(cfg, "%s:%s" % (src.rel, qual))
     env = dict(src.module_aliases())
     env.update(inputs)
     ret = run.body(fd.body, env, bound=set(bound))
@@ -706,7 +710,7 @@ def translate(src, qual, cfg, inputs, outputs, bound=(), this="return"):
             if sel not in env or isinstance(env[sel], Alias):
                 raise TranslationError("%s: variable %s is not assigned on the selected path" % (run.src_name, sel))
             ir = env[sel]
-        defs.append(Def(name, params, ir, origin="%s:%d %s" % (src.path, fd.lineno, qual),
+        defs.append(Def(name, params, ir, origin="%s:%d %s" % (src.rel, fd.lineno, qual),
                         quote=src.segment(fd), guards=run.guards, flags=run.used_flags))
     return defs
 
